@@ -223,3 +223,40 @@ pub fn transform_probe(
         probe,
     )
 }
+
+/// `process_text_attr` on a stand-alone element: the remaining shape attributes and the
+/// generated text / tspan elements (name, attributes incl. class, character content).
+#[allow(clippy::type_complexity)]
+pub fn text_attr(
+    name: &str,
+    attrs: &[(String, String)],
+) -> Result<
+    (
+        Vec<(String, String)>,
+        Vec<(String, Vec<(String, String)>, String)>,
+    ),
+    &'static str,
+> {
+    fn flat(e: &SvgElement) -> Vec<(String, String)> {
+        let mut out = e.attrs.to_vec();
+        if !e.classes.is_empty() {
+            out.push(("class".to_owned(), e.get_classes().join(" ")));
+        }
+        out
+    }
+    let el = SvgElement::new(name, attrs);
+    let (orig, texts) = crate::text::process_text_attr(&el).map_err(|e| errkind(&e))?;
+    Ok((
+        flat(&orig),
+        texts
+            .iter()
+            .map(|t| {
+                (
+                    t.name.clone(),
+                    flat(t),
+                    t.text_content.clone().unwrap_or_default(),
+                )
+            })
+            .collect(),
+    ))
+}
